@@ -86,6 +86,21 @@ CLAIMED["C16"] = dict(
          "One recorded finding (definition-time events), whose class is carved out and re-checked leniently.",
     note="Trusted: as C15. Coroutine callbacks and the order of events inside one message are outside.",
     ref="DESIGN.md section 6 C16", technique=XH)
+XHV = XH + "; asyncio replaced by a pure-Python model loop on a virtual clock (validated against the real loop each run), counterexamples replayed on the real asyncio loop"
+CLAIMED["C17"] = dict(
+    text="The real waitforevent coroutine (with its inner callback, poll and timeout tasks) runs on a model event loop whose clock is symbolic: "
+         "arrival instants of up to 3 events are UNBOUNDED symbolic integers (paths are orderings), match bits, timeout and polling grid symbolic; "
+         "z3 shows on every ordering that the wait returns the first match before the timeout at its instant, else the timeout at its instant, "
+         "polls exactly on the grid before completion, and leaves no callback.",
+    note="Trusted: VLoop's ordering contract (call_soon FIFO, timers by deadline then insertion, Event/Lock semantics), checked against the real loop on a "
+         "micro-scenario every run; exact ties event=timeout excluded as in the quantifier.",
+    ref="DESIGN.md section 6 C17", technique=XHV)
+CLAIMED["C19"] = dict(
+    text="The real message_from_device/send/_write coroutines of the TCP server, TCP client and TTY handlers on the model loop with fake streams whose "
+         "drain/write/flush completion delays are unbounded symbolic integers (incl. one drain that never completes) and bursts routed in one or in "
+         "successive iterations; on every completion order the recorded stream must be the routed messages, whole and in order.",
+    note="Trusted: VLoop; the thread pool behind aiofiles enters as 'a submitted call completes after an arbitrary independent delay'.",
+    ref="DESIGN.md section 6 C19", technique=XHV)
 NA_DEFAULT = "check not built yet in this round (no verdict claimed); see DESIGN.md section 6 for the plan"
 
 checks, na = [], []
